@@ -82,7 +82,7 @@ def pair(ctx, scns):
         d["seed"] = (ctx.seed * 1000003 + i * 7 + 1) % (1 << 30)
         d["pol"] = {"delay": [-1], "spur": [0]}
         d["wmode"] = i % 3
-        d["via"] = "router" if i % 4 == 3 else "direct"
+        d["via"] = ("direct", "from", "direct", "router", "direct", "router-from")[i % 6]
     return out
 
 
